@@ -243,5 +243,26 @@ def run(ctx):
                 elif new == 1: chart[ELEVEN[i]] = ""
                 else: chart[ELEVEN[i]] = CHART_VALUE[ELEVEN[i]]
                 hist.append([ELEVEN[i], ["absent", "empty", "value"][new]])
+    # the order of the calls does not matter: asking for the displayed BPM first leaves what TimingData reads untouched (the same
+    # BPMS text, several entries not ascending in tempo, on the same and on freshly built objects)
+    for h in range(ctx.scale(60, 600)):
+        tempos = rng.sample(["120.000", "60.000", "240.500", "90.000", "180.000", "30.250"], rng.randrange(2, 5))
+        text = ",".join("%d.000=%s" % (4 * j, t) for j, t in enumerate(tempos))
+        version = rng.choice(["0.83", "0.7", None])
+        sim, chart = build("SSC", version, "SSC", tuple([2] + [0] * 9 + [2]), None, None, None, None)
+        chart["BPMS"] = text; sim["BPMS"] = text
+        case = {"history": "displaybpm(...) then TimingData(...) on the same BPMS text", "bpms": text, "version": version}
+        res.case(case, nontrivial=True); res.traces += 1
+        try:
+            displaybpm(sim, chart); displaybpm(sim)
+            got = [[str(e.beat), str(e.value)] for e in TimingData(sim, chart).bpms], [[str(e.beat), str(e.value)] for e in TimingData(*build("SSC", version, None, tuple([0] * 11), None, None, None, None)[:1]).bpms]
+        except Exception as e:
+            res.violation(case, "displaybpm / TimingData raised", impl=core.exc_name(e)); continue
+        exp = [["%d.000" % (4 * j), t] for j, t in enumerate(tempos)]
+        sim2 = build("SSC", version, None, tuple([0] * 11), None, None, None, None)[0]; sim2["BPMS"] = text
+        got2 = [[str(e.beat), str(e.value)] for e in TimingData(sim2).bpms]
+        if got[0] != exp or got2 != exp:
+            res.violation(case, "after the displayed BPM was asked for, TimingData no longer carries the BPMS of its source in the source's order",
+                          impl=str(got[0] if got[0] != exp else got2), expected=str(exp)); continue
     res.assumptions = ["Python float() on version strings and Decimal() are CPython's; the model parses plain decimal literals (DESIGN 4.15 limits)"]
     return res
